@@ -14,8 +14,11 @@ caller is an entry of `s.senders` with a `kind` and a program counter `notCalled
 returned`; Wait callers are the entries of `s.waiters`. `sendAbort i` / `waitReturn i` are the
 steps by which caller `i` returns WITHOUT a partner (nobody has to receive anything). The
 theorems hold for EVERY configuration (any number of callers of any kind) and EVERY schedule
-(`Reachable c s` quantifies over all label sequences), so for every way the program ended:
-quit, Kill(), parent-context cancellation, interrupt, read error, panic.
+(`Reachable c s` quantifies over all label sequences from the moment Run is entered, `init0 c`:
+callers may enter Send / Wait while Run is still starting up), so for every way the program ended:
+quit, Kill(), parent-context cancellation, interrupt, read error, panic - and a failure or a panic
+of the start-up (after a failed `initTerminal` Run returns WITHOUT a shutdown: the deferred
+`cancel()` and `close(finished)` are what releases the callers then).
 
 Only property theorems live here; helpers are in `Tea/Proofs/Lifecycle.lean` (invariants) and
 `Tea/Proofs/LifecycleApi.lean` (enabledness of the callers' steps, release of all callers).
@@ -112,7 +115,7 @@ theorem C13_wait_all (c : Config) (s : St) (hr : Reachable c s) (hret : s.runPc 
     (i : Nat) (hi : s.waiters[i]? = some .blocked) :
     ∃ s', step s (.waitReturn i) = some s' ∧ s'.waiters[i]? = some .returned ∧
       s'.finishedClosed = true := by
-  have hf := ((inv_ctx hr).returned hret).2.1
+  have hf := ((inv_ctx hr).returned hret).2
   exact ⟨_, waitReturn_enabled hi hf, getElem?_set_self_of hi, hf⟩
 
 /-- the form asked for in the task: the step is enabled -/
@@ -125,7 +128,7 @@ theorem C13_wait_all_enabled (c : Config) (s : St) (hr : Reachable c s) (hret : 
 theorem C13_wait_after (c : Config) (s : St) (hr : Reachable c s) (hret : s.runPc = .returned)
     (i : Nat) (hi : s.waiters[i]? = some .notCalled) :
     ∃ s', runLabels s [.waitCall i, .waitReturn i] = some s' ∧ s'.waiters[i]? = some .returned := by
-  have hf := ((inv_ctx hr).returned hret).2.1
+  have hf := ((inv_ctx hr).returned hret).2
   have h1 := waitCall_enabled hi
   have hi2 : ({ s with waiters := s.waiters.set i .blocked } : St).waiters[i]? = some .blocked :=
     getElem?_set_self_of hi
@@ -150,7 +153,7 @@ theorem C13_all_waiters_released (c : Config) (s : St) (hr : Reachable c s)
     (hret : s.runPc = .returned) :
     ∃ ls, (∀ l ∈ ls, ∃ i, l = Label.waitReturn i) ∧
       runLabels s ls = some { s with waiters := s.waiters.map releaseW } :=
-  releaseW_all s ((inv_ctx hr).returned hret).2.1
+  releaseW_all s ((inv_ctx hr).returned hret).2
 
 theorem releaseW_def (w : APc) : releaseW w = if w = .blocked then .returned else w := rfl
 
@@ -215,6 +218,25 @@ example : ∃ s, Reachable cfg s ∧ s.runPc = .returned ∧
     rw [h4] at h2
     simp only [Option.map_some, Option.some.injEq] at h2
     exact ⟨cl, rfl, h2⟩
+
+/-- a Send and a Wait entered while Run is still starting up (the loop has not begun: the Send
+waits); then `initTerminal` fails and Run returns without a shutdown: both callers are released by
+the deferred `cancel()` / `close(finished)` -/
+example : (runLabels (init0 cfg) [.sendCall 0, .waitCall 0, .suSigHandler, .suNewRenderer]).map
+      (fun s => ((step s (.sendAbort 0)).isSome, (step s (.elRecvSender 0)).isSome,
+        (step s (.waitReturn 0)).isSome)) = some (false, false, false) ∧
+    (runLabels (init0 cfg) [.sendCall 0, .waitCall 0, .suSigHandler, .suNewRenderer, .startTermFails,
+      .sendAbort 0, .waitReturn 0]).map obs =
+    some (.returned, .startup, [.returned, .notCalled, .notCalled, .notCalled],
+      [.returned, .notCalled, .notCalled]) := by
+  decide
+
+/-- a Kill() during the start-up with a Send blocked: released as soon as Kill has cancelled the
+context, long before Run returns -/
+example : (runLabels (init0 cfg) [.sendCall 1, .suSigHandler, .killCall, .shCancel (some 0), .sendAbort 1]).map
+    (fun s => (s.runPc, s.senders.map (·.pc))) =
+    some (.starting .newRenderer, [.notCalled, .returned, .notCalled, .notCalled]) := by
+  decide
 
 /-- before the end, a Send on a busy loop waits (no step of its own), and Wait waits -/
 example : (runLabels (init cfg) [.sendCall 0, .elRecvSender 0, .sendCall 1, .waitCall 0]).map
